@@ -341,6 +341,12 @@ def f_equal_null(r: random.Random):
     (la, a), (lb, b) = r.choice(vals), r.choice(vals)
     if a is not None and b is not None and type(a) is not type(b):
         lb, b = la, a
+    if r.random() < 0.35:
+        # the call as an operand: its value is a boolean like any other (EQUAL_NULL(a, b) = FALSE is true when they differ)
+        wrap, fn = r.choice([("{} = FALSE", lambda v: not v), ("{} = TRUE", lambda v: v), ("{} <> TRUE", lambda v: not v), ("FALSE = {}", lambda v: not v),
+                             ("NOT {}", lambda v: not v), ("{} AND TRUE", lambda v: v), ("{} OR FALSE", lambda v: v), ("({} = FALSE) = FALSE", lambda v: v),
+                             ("{} IS NOT NULL", lambda v: True), ("IFF({} = FALSE, 'differ', 'same') = 'differ'", lambda v: not v)])
+        return wrap.format(f"EQUAL_NULL({la}, {lb})"), fn(a == b), "truth-table-as-operand"
     return f"EQUAL_NULL({la}, {lb})", a == b, "truth-table"
 
 
@@ -471,7 +477,10 @@ def _eval(cur: Any, expr: str, ctx: str) -> dict:
     elif ctx == "ctas":
         sqls = [f"CREATE OR REPLACE TABLE T_C10 AS SELECT {expr} AS X", "SELECT X FROM T_C10"]
     elif ctx == "merge":
-        # the expression as the value a MERGE writes, in its UPDATE SET and in its INSERT VALUES
+        # the expression as the value a MERGE writes, in its UPDATE SET and in its INSERT VALUES (a comparison or boolean
+        # combination is written in parentheses there: SET X = a = b reads as an assignment followed by "= b")
+        if re.search(r"\)\s*(=|<>|AND\b|OR\b|IS\b)|^(NOT\s|FALSE\s*=)", expr):
+            expr = f"({expr})"
         sqls = [f"CREATE OR REPLACE TABLE T_C10R AS SELECT 0 AS K, {expr} AS X", "UPDATE T_C10R SET X = NULL",
                 f"MERGE INTO T_C10R t USING (SELECT 0 AS K UNION ALL SELECT 1 AS K) s ON t.K = s.K WHEN MATCHED THEN UPDATE SET X = {expr} "
                 f"WHEN NOT MATCHED THEN INSERT (K, X) VALUES (s.K, {expr})", "SELECT X FROM T_C10R ORDER BY K"]
